@@ -274,7 +274,13 @@ func concCase(c *Ctx, r *RNG, id, home, mix string) {
 	var keys []string
 	for len(keys) < nkeys {
 		k := genKey(r)
-		if store.IsValidKeyString(k) && len(k) < 40 {
+		dup := false
+		for _, x := range keys {
+			if x == k {
+				dup = true
+			}
+		}
+		if store.IsValidKeyString(k) && len(k) < 40 && !dup {
 			keys = append(keys, k)
 		}
 	}
@@ -288,7 +294,13 @@ func concCase(c *Ctx, r *RNG, id, home, mix string) {
 	if mix == "c05" {
 		for len(cold) < 2+r.Intn(4) {
 			k := genKey(r)
-			if store.IsValidKeyString(k) && len(k) < 40 {
+			dup := false
+			for _, x := range append(append([]string{}, hot...), cold...) {
+				if x == k {
+					dup = true
+				}
+			}
+			if store.IsValidKeyString(k) && len(k) < 40 && !dup {
 				cold = append(cold, k)
 			}
 		}
@@ -305,11 +317,20 @@ func concCase(c *Ctx, r *RNG, id, home, mix string) {
 		lr := rand.New(rand.NewSource(int64(r.Next())))
 		slot := new(int32)
 		cr.byGID.Store(curGID(), slot)
+		rebuildTree := r.Fork(5).Chance(50)
+		if rebuildTree {
+			c.count("c05.rebuilt-tree")
+		}
 		for ph := 0; ph < 2+r.Intn(3); ph++ {
 			for i := 0; i < 2+r.Intn(6); i++ {
 				k := keys[r.Intn(len(keys))]
 				if ph == 0 && i < len(cold) {
 					k = cold[i]
+				}
+				if ph == 1 && i < len(cold) && i%2 == 1 {
+					// every second cold key is deleted in the second file: its delete marker is what a pass over that file relocates
+					cr.doDelete(s, 0, cold[i], slot)
+					continue
 				}
 				if r.Chance(75) || (ph == 0 && i < len(cold)) {
 					v := newVal()
@@ -321,6 +342,13 @@ func concCase(c *Ctx, r *RNG, id, home, mix string) {
 			s.flushAll()
 			guard(func() { s.hs.Close() })
 			s.quiesce()
+			if rebuildTree {
+				// the tree dump is lost: the next start rebuilds the tree from the hints, delete markers are then unknown to it
+				hs, _ := filepath.Glob(filepath.Join(home, "*.idx.hash"))
+				for _, p := range hs {
+					os.Remove(p)
+				}
+			}
 			if err := s.open(); err != nil {
 				c.line("open => REFUSED %v", err)
 				c.line("end")
@@ -328,6 +356,27 @@ func concCase(c *Ctx, r *RNG, id, home, mix string) {
 			}
 		}
 		s.flushAll()
+		// the history that is checked starts here: what the layout left is the initial state, represented by one
+		// synthetic accepted write (or delete) per key carrying the value and version the key holds now
+		// (versions start again after a restart that rebuilt the tree; they are compared within one process life)
+		cr.mu.Lock()
+		cr.evs = nil
+		cr.mu.Unlock()
+		for _, k := range keys {
+			cr.doRead(s.hs, 0, k)
+		}
+		cr.mu.Lock()
+		base := cr.evs
+		cr.evs = nil
+		for _, e := range base {
+			switch {
+			case e.ver > 0:
+				cr.evs = append(cr.evs, concEv{key: e.key, cl: 0, op: 'w', val: e.val, inv: e.inv, resp: e.resp, ver: e.ver})
+			case e.ver < 0:
+				cr.evs = append(cr.evs, concEv{key: e.key, cl: 0, op: 'd', inv: e.inv, resp: e.resp, ver: e.ver})
+			}
+		}
+		cr.mu.Unlock()
 	}
 
 	stop := int32(0)
@@ -361,9 +410,14 @@ func concCase(c *Ctx, r *RNG, id, home, mix string) {
 			// targeted ordering: park the pass at a chosen step on a chosen key; a client writes that key meanwhile
 			cr.parkKey = cold[r.Intn(len(cold))]
 			cr.parkPoint = []string{"gc.checked", "gc.copied"}[r.Intn(2)]
-			begin = 0 // the cold keys were written into the first file
-			if head > 1 {
-				end = r.Intn(head - 1)
+			// the cold keys were written into the first file, half of them deleted in the second
+			begin = r.Fork(6).Intn(2)
+			if begin >= head {
+				begin = 0
+			}
+			end = begin
+			if head-1 > begin {
+				end = begin + r.Intn(head-1-begin)
 			}
 			c.count("c05.targeted." + cr.parkPoint)
 		}
